@@ -67,6 +67,10 @@ CLAIMED = {
             "model-based: printer model (declaration order, once per instance, effective filter = own else inherited, depth, commented-out unset scalars, print callbacks) against cfg_print / cfg_print_indent / cfg_opt_print / cfg_opt_print_indent for generated schemas, states, filter placements and callback placements",
             "Blanks outside quotes are cosmetic; multi-line annotations are not generated.",
             "model-based property testing (Hypothesis) against a reference printer model"),
+    "C16": ("exploration", "5.C16",
+            "declaration memory poisoned and freed right after cfg_init for generated schemas, later instance creation / defaults / print checked against the language model under ASan; all interleavings (<= 6 steps) of two operation lists on two contexts and on two sibling section instances compared with their solo runs",
+            "Stale reads are visible through ASan and the 0xA5 overwrite; function pointers are not declaration memory.",
+            "property-based testing (Hypothesis schemas) with use-after-free oracle + exhaustive interleaving enumeration, differential against solo runs"),
 }
 PENDING = {}
 props = [json.loads(l) for l in open(os.path.join(V, "properties.jsonl"))]
